@@ -443,7 +443,7 @@ def run_task(args):
         for ob in obs:
             if mutant:
                 # negative control: one refuted obligation is all that is asked for (short budget, no second opinions)
-                status, backend, secs, model, reason = prove(ob['pc'], ob['goal'], TIMEOUT_MS[tier], light=True)
+                status, backend, secs, model, reason = prove(ob['pc'], ob['goal'], TIMEOUT_MS[tier] if mod.MUTANTS[mutant].get('expect') else min(8000, TIMEOUT_MS[tier]), light=True)
             else:
                 # second efforts (4x retry, external solvers) are bounded per task: a source change that makes many
                 # obligations hard must not stall the check (they stay 'undecided', never 'violated')
